@@ -320,6 +320,118 @@ def build_pair_queries(db, prog, name, propid='C01', chunk=40):
     return out
 
 
+EVENT_REF = ('ref_npgeant', 'ref_pmoment', 'ref_ptime', 'ref_set_npgeant', 'ref_set_pmoment', 'ref_set_ptime', 'ref_npfull', 'ref_tevst')
+
+
+def _called(e):
+    """names of the functions called inside expression e, and the global variables it reads"""
+    out = set()
+
+    def fe(x):
+        if not isinstance(x, E):
+            return
+        if x.k == 'call':
+            a = x.a
+            out.add(a if isinstance(a, str) else getattr(a, 'name', None))
+        if x.k == 'var' and str(x.name).startswith('ref_ev_'):
+            out.add('ref_npfull')
+        for y in (x.a, x.b, x.c):
+            if isinstance(y, E):
+                fe(y)
+        for y in (x.args or []):
+            fe(y)
+    fe(e)
+    return out
+
+
+def _is_event_access(names):
+    return any(n and (n in EVENT_REF or n.startswith('event__') or n.startswith('particle__') or n.startswith('bx_vec_particle')) for n in names)
+
+
+def drop_event_access(body):
+    """statements that read or rewrite particles ALREADY in the event record (the angular-correlation blocks of Co60, Bi207,
+    Ru100low, Se76low, Sm150low: capture an index after an emission, later re-sample the two directions) are removed on both
+    sides; everything else of the routine - branching, emission calls, energies, times, deviates - stays and is compared.
+    Returns (new body, number of statements removed)."""
+    n = [0]
+    info = {'captured': [], 'rewrite_after_label': set(), 'last_label': None}
+
+    def fs(s):
+        k = s.kind
+        if k in ('expr', 'return') and getattr(s, 'e', None) is not None and _is_event_access(_called(s.e)):
+            if k == 'return':
+                raise Unsupported('event access inside a return statement')
+            n[0] += 1
+            names_ = _called(s.e)
+            if any(x_ and ('set_' in x_) for x_ in names_):
+                # a momentum of an already emitted particle is rewritten: only inside a re-sampling block
+                if info['last_label'] is None:
+                    raise Unsupported('event rewrite before any label')
+                info['rewrite_after_label'].add(info['last_label'])
+            elif s.e.k == 'assign' and s.e.a.k == 'var':
+                info['captured'].append(s.e.a.name)
+            return S('empty', why='event access removed (angular-correlation block)')
+        if k == 'decl':
+            names = set()
+            if s.init is not None:
+                names |= _called(s.init)
+            if getattr(s, 'ctor', None) is not None:
+                names |= _called(s.ctor)
+            if _is_event_access(names):
+                n[0] += 1
+                d = copy.copy(s)
+                d.init = None
+                d.ctor = None
+                return d
+            return s
+        if k == 'if':
+            if _is_event_access(_called(s.cond)):
+                raise Unsupported('a branch condition reads the event record')
+            t = copy.copy(s)
+            t.then = fs(s.then)
+            t.els = fs(s.els) if s.els is not None else None
+            return t
+        if k == 'block':
+            t = copy.copy(s)
+            t.items = [fs(y) for y in s.items]
+            return t
+        if k == 'label':
+            info['last_label'] = s.name
+            t = copy.copy(s)
+            t.stmt = fs(s.stmt)
+            return t
+        if k in ('for', 'while', 'do'):
+            for a in ('cond',):
+                c_ = getattr(s, a, None)
+                if c_ is not None and _is_event_access(_called(c_)):
+                    raise Unsupported('a loop condition reads the event record')
+            t = copy.copy(s)
+            t.body = fs(s.body)
+            return t
+        return s
+    return fs(body), n[0], info
+
+
+def _body_calls(body):
+    out = set()
+
+    def fs(s):
+        for a in ('e', 'cond', 'init', 'ctor', 'inc'):
+            x = getattr(s, a, None)
+            if isinstance(x, E):
+                out.update(_called(x))
+            elif isinstance(x, S):
+                fs(x)
+        for y in getattr(s, 'items', []) or []:
+            fs(y)
+        for a in ('then', 'els', 'stmt', 'body'):
+            y = getattr(s, a, None)
+            if isinstance(y, S):
+                fs(y)
+    fs(body)
+    return {c for c in out if c}
+
+
 def build_pair_query(db, prog, name, pairing=None, extra_cuts=None, propid='C01', only=None, hooks=None):
     """one CBMC query: every cut point (or the cut points with index in `only`) of the routine pair"""
     hooks = hooks or {}
@@ -329,6 +441,39 @@ def build_pair_query(db, prog, name, pairing=None, extra_cuts=None, propid='C01'
     if rname is None:
         raise Unsupported('no reference unit for ' + name)
     fr = prog.translate(rname)
+    dropped = None
+    if not hooks.get('event_record') and (any(c in EVENT_REF for c in fr.calls) or _is_event_access(fx.calls)):
+        bx_, nx_, ix_ = drop_event_access(fx.body)
+        br_, nr_, ir_ = drop_event_access(fr.body)
+        if nx_ and nr_:
+            fx = copy.copy(fx)
+            fx.body = bx_
+            gone = {c for c in fx.calls if _is_event_access([c])} - _body_calls(bx_)
+            fx.calls = set(fx.calls) - gone
+            fr = copy.copy(fr)
+            fr.body = br_
+            fr.calls = {c for c in fr.calls if c not in EVENT_REF}
+            dropped = {'cxx_statements': nx_, 'reference_statements': nr_}
+            # the captured indices are never assigned any more: they keep their initial values (-1 in the port, 0 in the
+            # reference: Fortran locals start at 0, the model stated for f77c), so the re-sampling block is skipped on both
+            # sides; as invariants of every cut point (assumed at the start of a segment, asserted on arrival)
+            hooks = dict(hooks)
+            inv = []
+            capx, capr = sorted(set(ix_['captured'])), sorted(set(ir_['captured']))
+            for (t_, nm_, did_) in fx.locals:
+                if nm_ in capx and bx2c.strip_cv(t_) == 'int':
+                    inv.append('x_%s == -1' % nm_)     # (a double assigned from a read, p1064 = g1064.get_p(), is simply dead)
+            for (t_, nm_, did_) in fr.locals:
+                if nm_ in capr and t_ == 'int':
+                    inv.append('r_%s == 0' % nm_)
+            if ix_['rewrite_after_label'] != ir_['rewrite_after_label']:
+                raise Unsupported('re-sampling loops are labelled differently on the two sides: %s / %s' % (sorted(ix_['rewrite_after_label']), sorted(ir_['rewrite_after_label'])))
+            hooks['dead_cuts'] = sorted(ix_['rewrite_after_label'])
+            dropped['captured_indices'] = [capx, capr]
+            dropped['resampling_loops_asserted_unreachable'] = hooks['dead_cuts']
+            hooks['skip_vars'] = set(hooks.get('skip_vars', ())) | {'twopi'} | {norm(nm_) for nm_ in capx + capr}
+            est = ' '.join('%s = %s;' % tuple(x_.split(' == ')) for x_ in inv)
+            hooks['all_cut_invariants'] = [('captured particle indices keep their initial values (event access removed)', ' && '.join(inv), est)] if inv else []
     pairing = pairing or Pairing(db, prog)
     # ---- callees -------------------------------------------------------------------------------
     stubs = []
@@ -608,7 +753,7 @@ def build_pair_query(db, prog, name, pairing=None, extra_cuts=None, propid='C01'
             b = vr.get(_norm(snm))
             if b is not None and b[1] not in getattr(fr, 'commons', {}):
                 setup_cut.append('  r_%s = x_%s;' % (b[1], snm))
-            if b is not None:
+            if b is not None and _norm(snm) not in hooks.get('skip_vars', ()):
                 checks.append((_norm(snm), 'bx_same(x_%s, r_%s)' % (snm, b[1])))
     checks += list(hooks.get('extra_checks', []))
     G += list(hooks.get('extra_globals', []))
@@ -659,16 +804,19 @@ def build_pair_query(db, prog, name, pairing=None, extra_cuts=None, propid='C01'
         if lv and 'label_20000' in cuts:
             dead = ['label_20000']
             lvpre = '__CPROVER_assume(%s);' % ' || '.join('x_%s == %d' % (lvname, v) for v in lv)
+    dead_rs = [d_ for d_ in hooks.get('dead_cuts', []) if d_ in cuts]
     H.append('  switch (pc) {')
     for k, cname in enumerate(names):
         if only is not None and k not in only:
+            continue
+        if cname in dead_rs:
             continue
         if cname in dead:
             continue
         # everything of one cut point stays inside its case: pc is a constant there, so array indices stay concrete
         H.append('  case %d: {' % k)
         H += ['  ' + s for s in (setup_entry if k == 0 else setup_cut)]
-        for inv_ in hooks.get('cut_invariants', {}).get(cname, []):
+        for inv_ in (hooks.get('cut_invariants', {}).get(cname, []) + (hooks.get('all_cut_invariants', []) if k != 0 else [])):
             desc_, cond_ = inv_[0], inv_[1]
             if len(inv_) > 2:
                 # established by assignment (bit-identical copies, also for NaN payloads) instead of by assumption
@@ -688,6 +836,8 @@ def build_pair_query(db, prog, name, pairing=None, extra_cuts=None, propid='C01'
         tag = '%s %s seg@%s' % (propid, name, cname)
         for d in dead:
             H.append('    __CPROVER_assert(nx != %d, "%s: the wrong-level exit is unreachable for a tabulated level");' % (idsx[d], tag))
+        for d in dead_rs:
+            H.append('    __CPROVER_assert(nx != %d && nr != %d, "%s: the re-sampling loop %s is not entered once the event accesses are removed (captured indices keep their initial values)");' % (idsx[d], idsx[d], tag, d))
         H.append('    __CPROVER_assert(bx_cap_ok, "relational harness capacity (deviate epochs) suffices");')
         H.append('    __CPROVER_assert(nx == nr, "%s: same successor cut point");' % tag)
         H.append('    __CPROVER_assert(exc_x == bx_exc, "%s: same error exit");' % tag)
@@ -708,11 +858,14 @@ def build_pair_query(db, prog, name, pairing=None, extra_cuts=None, propid='C01'
             if dl_:
                 cmp_ = '%s || %s' % (' || '.join('nx == %d' % d_ for d_ in dl_), cmp_)
             H.append('    __CPROVER_assert(%s, "%s: related variable %s equal afterwards");' % (cmp_, tag, key))
+        for inv_ in hooks.get('all_cut_invariants', []):
+            H.append('    __CPROVER_assert(nx == %d || (%s), "%s: invariant on arrival at the next cut point: %s");' % (segments.BX_EXIT, inv_[1], tag, inv_[0]))
         for cl_, invs_ in hooks.get('cut_invariants', {}).items():
             if cl_ in idsx:
                 for inv_ in invs_:
                     desc_, cond_ = inv_[0], inv_[1]
                     H.append('    __CPROVER_assert(nx != %d || (%s), "%s: invariant of %s on arrival: %s");' % (idsx[cl_], cond_, tag, cl_, desc_))
+        H.append('    __CPROVER_assert(0, "canary %s: the end of this segment\'s case is reachable (must be refuted)");' % tag)
         H.append('    break; }')
     H.append('  }')
     H.append('  __CPROVER_assert(0, "canary %s: harness end is reachable (must be refuted)");' % name)
@@ -720,7 +873,7 @@ def build_pair_query(db, prog, name, pairing=None, extra_cuts=None, propid='C01'
     parts.append('\n'.join(H))
     meta = {'function': name, 'reference': rname, 'what': 'rel', 'cuts': cuts, 'labels_cxx_only': [l for l in lx if l not in set(lr)],
             'labels_ref_only': [l for l in lr if l not in set(lx)], 'unrelated': unrelated,
-            'related': [k for k, _ in checks], 'chunk': ([only[0], only[-1]] if only is not None else None), 'truncated_at': TRUNCATE.get(name), 'assumed_no_exc': hooks.get('assume_no_exc'), 'dead_at': hooks.get('dead_at'), 'cut_invariants': {k_: [i_[0] for i_ in v_] for k_, v_ in hooks.get('cut_invariants', {}).items()}, 'skipped_dead_cuts': dead, 'literal_clusters': sum(1 for t, r in rep.items() if repr(float(t)) != r)}
+            'related': [k for k, _ in checks], 'chunk': ([only[0], only[-1]] if only is not None else None), 'truncated_at': TRUNCATE.get(name), 'event_access_removed': dropped, 'assumed_no_exc': hooks.get('assume_no_exc'), 'dead_at': hooks.get('dead_at'), 'cut_invariants': {k_: [i_[0] for i_ in v_] for k_, v_ in hooks.get('cut_invariants', {}).items()}, 'skipped_dead_cuts': dead, 'literal_clusters': sum(1 for t, r in rep.items() if repr(float(t)) != r)}
     return {'c': '\n\n'.join(parts) + '\n', 'entry': 'harness', 'meta': meta}
 
 
